@@ -366,6 +366,19 @@ example :
     = ([([65, 36], .str [104, 101, 108, 108, 111])],
        [([83, 36], ([1], [.str [104, 105], .str []]))], 5479) := by decide
 
+/-- an empty string computed at run time shares its address with the string stored just before it
+    (`B$ = MID$(A$,9)` after `A$ = "hel"+"lo"`, both pointers have address 5482); the migration goes by
+    variable, not by address, so both come back with their own value -/
+example :
+    (match chainStmt false true [] [] (some ([(10, [])], 50)) none
+        { demo with mem := { demo.mem with
+            scalars := [([65, 36], .str ⟨5, 5482⟩), ([66, 36], .str ⟨0, 5482⟩)], scalBytes := 14,
+            arrays := [([83, 36], ([1], [.str ⟨0, 5482⟩, .str ⟨2, 5480⟩]))] } } with
+     | .ok s' => (absScalars s'.mem, absArrays s'.mem)
+     | .error _ => ([], []))
+    = ([([65, 36], .str [104, 101, 108, 108, 111]), ([66, 36], .str [])],
+       [([83, 36], ([1], [.str [], .str [104, 105]]))]) := by decide
+
 example : (match clearStmt (some 5900) none demo with
      | .ok s' => (s'.mem.current, s'.it.gosub, s'.files)
      | .error _ => (0, [], [])) = (5386, [], [1]) := by decide
